@@ -99,6 +99,8 @@ def validate(ctx, comp, sc, tso, runs, workdir, tag):
     d = ctx.viol_dir()
     tp1 = os.path.join(d, "trace.ndjson"); write_ndjson(tp1, one)
     v1 = validate_trace_file(mod, tp1, tag=tag + "_one", timeout=300)     # report only if a re-run repeats it
+    if v1.error:
+        raise RuntimeError("trace validation of the isolated execution failed to run (%s): %s\n%s" % (mod, v1.error, v1.tlc.out[-1500:]))
     if v1.accepted:
         ctx.notes.append("rejection of seed %d did not repeat in isolation (ignored)" % seed)
         shutil.rmtree(d, ignore_errors=True)
